@@ -1,7 +1,11 @@
 import MoreExec.Props.C13
+import MoreExec.Props.C13Code
 #print axioms MoreExec.MapFut.C13_spec
 #print axioms MoreExec.MapFut.C13_calls
 #print axioms MoreExec.MapFut.C13_identity
 #print axioms MoreExec.MapFut.C13_compose
 #print axioms MoreExec.MapFut.C13_reraise_same
 #print axioms MoreExec.MapFut.C13_flat_nonfuture
+#print axioms MoreExec.MapFut.C13_code_is_model
+#print axioms MoreExec.MapFut.C13_code_meets_spec
+#print axioms MoreExec.MapFut.C13_code_calls
